@@ -32,7 +32,8 @@ Record tokcase := {
   tc_ignore_space : bool;
   tc_space_res : N;                         (* outcome of Tokenizer::ignore_space: 0 ok, 1 err *)
   tc_mgl : N;
-  tc_sents : list sentobs
+  tc_sents : list sentobs;
+  tc_extra : list (list N)                  (* property-specific observations (C13: id orders of compute_probs, map flags) *)
 }.
 
 Definition conn_dims (conn : list (list Z)) : N * N :=
